@@ -166,6 +166,7 @@ class Interp:
         self.caught: list[tuple[str, str, str, str]] = []  # exceptions the analysed code caught itself (diagnostics)
         self._globals: dict[tuple[str, str], Any] = {}
         self.natives: dict[str, Any] = {}  # models of third-party callables, by qualified name
+        self.native_consts: dict[str, Any] = {}  # models of third-party objects, by qualified name
         self.natives["functools.reduce"] = self._reduce
         self.cur: tuple[str, int] = ("?", 0)
         self._lenient = 0  # > 0 while a message for an exception is being built (its text never matters)
@@ -771,6 +772,8 @@ class Interp:
             if kind == "external":
                 if str(obj) in _STDLIB_CONSTS:
                     return _STDLIB_CONSTS[str(obj)]
+                if str(obj) in self.native_consts:
+                    return self.native_consts[str(obj)]
                 return _External(str(obj))
             if kind == "module":
                 return _External(obj.name)  # type: ignore[union-attr]
@@ -936,6 +939,10 @@ class Interp:
                     args = [self.eval(a, env) for a in e.args]
                     kwargs = {k2.arg: self.eval(k2.value, env) for k2 in e.keywords if k2.arg}
                     return self.call_func(Func(k.mod, k, k.methods[e.func.attr]), [selfv] + args, kwargs)
+            if "super." + e.func.attr in self.natives:  # a method of a third-party base class that a rule models
+                args = [self.eval(a, env) for a in e.args]
+                kwargs = {k2.arg: self.eval(k2.value, env) for k2 in e.keywords if k2.arg}
+                return self.natives["super." + e.func.attr](selfv, *args, **kwargs)
             return None  # object.__init__
         d = dotted(e.func)
         if d in ("logger.debug", "logger.info", "logger.warning", "logger.error", "warnings.warn"):
@@ -1217,6 +1224,8 @@ class Interp:
                 ok = not self.equal(left, right)
             elif isinstance(op, (ast.In, ast.NotIn)) and isinstance(left, str) and isinstance(right, str):
                 ok = (left in right) == isinstance(op, ast.In)  # substring test
+            elif isinstance(op, (ast.In, ast.NotIn)) and isinstance(right, NativeObj) and hasattr(right, "__contains__"):
+                ok = (left in right) == isinstance(op, ast.In)
             elif isinstance(op, ast.In):
                 ok = any(self.equal(left, x) for x in self.iterate(right)) if not isinstance(right, (dict, set)) or isinstance(left, (AObj, EnumVal)) else left in right
             elif isinstance(op, ast.NotIn):
@@ -1548,6 +1557,8 @@ _STDLIB_FUNCS: dict[str, Any] = {"itertools.takewhile": lambda f, it: list(itert
                                  "itertools.product": lambda *a, **k: list(itertools.product(*a, **k)),
                                  "itertools.zip_longest": lambda *a, **k: list(itertools.zip_longest(*a, **k)),
                                  "operator.iconcat": operator.iconcat, "operator.add": operator.add, "operator.concat": operator.concat, "copy.deepcopy": lambda v, memo=None: _deepcopy(v), "copy.copy": _shallowcopy,
+                                 "bisect.bisect_left": __import__("bisect").bisect_left, "bisect.bisect_right": __import__("bisect").bisect_right, "bisect.bisect": __import__("bisect").bisect,
+                                 "bisect.insort": __import__("bisect").insort, "bisect.insort_left": __import__("bisect").insort_left, "bisect.insort_right": __import__("bisect").insort_right,
                                  "antlr4.ParserRuleContext": lambda *a: ACtx("_empty"), "antlr4.ParserRuleContext.ParserRuleContext": lambda *a: ACtx("_empty")}
 
 def _b_iter(x: Any) -> Any:
